@@ -143,3 +143,54 @@ func c06DateCorr(ctx *Ctx, n int) error {
 	}
 	return nil
 }
+
+// c06BoolCorr: strconv.ParseBool and the runtime binder into a bool vs IntParse.parseBool, on every spelling of
+// true/false in any letter case plus digits and junk.
+func c06BoolCorr(ctx *Ctx) error {
+	texts := []string{"", "1", "0", "2", "10", "t", "f", "T", "F", "y", "n", "yes", "no", "on", "off", " true", "true ", "TRUE", "FALSE", "True", "False"}
+	for _, w := range []string{"true", "false"} {
+		for mask := 0; mask < 1<<len(w); mask++ {
+			b := []byte(w)
+			for k := range b {
+				if mask&(1<<k) != 0 {
+					b[k] = b[k] - 32
+				}
+			}
+			texts = append(texts, string(b))
+		}
+	}
+	for _, s := range texts {
+		var m struct {
+			Ok    *bool  `json:"ok"`
+			Error string `json:"error"`
+		}
+		if err := ctx.Model(J{"fn": "parseBool", "s": hx(s)}, &m); err != nil {
+			return err
+		}
+		model := "error"
+		if m.Ok != nil {
+			model = fmt.Sprint(*m.Ok)
+		}
+		ctx.Res.Eval(J{"bool-text": s}, true)
+		ctx.Res.Count("corr:bool")
+		impl := "error"
+		if v, err := strconv.ParseBool(s); err == nil {
+			impl = fmt.Sprint(v)
+		}
+		if impl != model {
+			ctx.Res.Disagree("CORR strconv.ParseBool vs IntParse.parseBool", J{"text": s}, model, impl)
+		}
+		if s == "" {
+			continue
+		}
+		var d bool
+		bound := "error"
+		if err := runtime.BindStyledParameterWithOptions("simple", "p", s, &d, runtime.BindStyledParameterOptions{ParamLocation: runtime.ParamLocationHeader, Explode: false, Required: true}); err == nil {
+			bound = fmt.Sprint(d)
+		}
+		if bound != model {
+			ctx.Res.Disagree("CORR runtime.BindStyledParameterWithOptions (bool destination) vs IntParse.parseBool", J{"text": s}, model, bound)
+		}
+	}
+	return nil
+}
